@@ -281,7 +281,7 @@ def _exact_unsat(ctx, neg):
         x, y = z3.Var(0, z3.RealSort()), z3.Var(1, z3.RealSort())
         subs = ((core._MUL, x * y), (core._DIV, x / y))
         s2 = z3.Solver()
-        s2.set("timeout", max(ctx.timeout_ms, 20000))
+        s2.set("timeout", max(ctx.timeout_ms * 6, 90000))     # few paths need it; generous so that a loaded machine does not turn it into "unknown"
         for a in ctx.s.assertions():
             s2.add(z3.substitute_funs(a, *subs))
         s2.add(z3.substitute_funs(neg, *subs))
